@@ -6,6 +6,7 @@ CONSTANTS
   Fixed = TRUE
   UseSched = FALSE
   CondErr = FALSE
+  Holds = {"before","cmd1","gate2","cmd2"}
 SPECIFICATION GSpec
 INVARIANTS NoPanic NoStartAfterCancel InterruptedReportsError Emit
 PROPERTIES Finishes
